@@ -27,6 +27,45 @@ pub proof fn lemma_k_lt_trans(a: JsonValue, b: JsonValue, c: JsonValue) requires
 pub proof fn lemma_k_eq_lt(a: JsonValue, b: JsonValue, c: JsonValue) requires key_order_total(), keq(a, b), klt(b, c) ensures klt(a, c) { reveal(key_order_total); }
 pub proof fn lemma_k_lt_eq(a: JsonValue, b: JsonValue, c: JsonValue) requires key_order_total(), klt(a, b), keq(b, c) ensures klt(a, c) { reveal(key_order_total); }
 pub open spec fn key_of(g: Rc<dyn Get>, c: Context) -> JsonValue { g.get_spec(&c)->0 }
+// ---- the hypothesis is not vacuous: the same eight clauses, with the two relations as parameters, hold for the order induced by
+// ANY ranking of the values (so they have models, trivial and non-trivial), and key_order_total() is exactly that schema at (keq, klt)
+pub open spec fn order_axioms(eq: spec_fn(JsonValue, JsonValue) -> bool, lt: spec_fn(JsonValue, JsonValue) -> bool) -> bool {
+    &&& forall|a: JsonValue| #[trigger] eq(a, a)
+    &&& forall|a: JsonValue, b: JsonValue| #[trigger] eq(a, b) ==> eq(b, a)
+    &&& forall|a: JsonValue, b: JsonValue, c: JsonValue| #[trigger] eq(a, b) && #[trigger] eq(b, c) ==> eq(a, c)
+    &&& forall|a: JsonValue, b: JsonValue| #[trigger] lt(a, b) ==> !lt(b, a) && !eq(a, b) && !eq(b, a)
+    &&& forall|a: JsonValue, b: JsonValue| #[trigger] lt(a, b) || eq(a, b) || #[trigger] lt(b, a)
+    &&& forall|a: JsonValue, b: JsonValue, c: JsonValue| #[trigger] lt(a, b) && #[trigger] lt(b, c) ==> lt(a, c)
+    &&& forall|a: JsonValue, b: JsonValue, c: JsonValue| #[trigger] eq(a, b) && #[trigger] lt(b, c) ==> lt(a, c)
+    &&& forall|a: JsonValue, b: JsonValue, c: JsonValue| #[trigger] lt(a, b) && #[trigger] eq(b, c) ==> lt(a, c)
+}
+pub proof fn lemma_order_hypothesis_has_models(rank: spec_fn(JsonValue) -> int)
+    ensures order_axioms(|a: JsonValue, b: JsonValue| rank(a) == rank(b), |a: JsonValue, b: JsonValue| rank(a) < rank(b)), // @obl THY.C07.order_hypothesis_has_models : C07
+{
+}
+pub proof fn lemma_order_hypothesis_is_the_schema()
+    ensures key_order_total() == order_axioms(|a: JsonValue, b: JsonValue| keq(a, b), |a: JsonValue, b: JsonValue| klt(a, b)), // @obl THY.C07.order_hypothesis_is_the_schema : C07
+{
+    let eq = |a: JsonValue, b: JsonValue| keq(a, b);
+    let lt = |a: JsonValue, b: JsonValue| klt(a, b);
+    assert forall|a: JsonValue, b: JsonValue| #[trigger] eq(a, b) == keq(a, b) && #[trigger] lt(a, b) == klt(a, b) by {}
+    if key_order_total() {
+        reveal(key_order_total);
+        assert(order_axioms(eq, lt));
+    }
+    if order_axioms(eq, lt) {
+        assert forall|a: JsonValue| #[trigger] keq(a, a) by { assert(eq(a, a)); }
+        assert forall|a: JsonValue, b: JsonValue| #[trigger] keq(a, b) implies keq(b, a) by { assert(eq(a, b)); assert(eq(b, a)); }
+        assert forall|a: JsonValue, b: JsonValue, c: JsonValue| #[trigger] keq(a, b) && #[trigger] keq(b, c) implies keq(a, c) by { assert(eq(a, b) && eq(b, c)); assert(eq(a, c)); }
+        assert forall|a: JsonValue, b: JsonValue| #[trigger] klt(a, b) implies !klt(b, a) && !keq(a, b) && !keq(b, a) by { assert(lt(a, b)); assert(!lt(b, a) && !eq(a, b) && !eq(b, a)); }
+        assert forall|a: JsonValue, b: JsonValue| #[trigger] klt(a, b) || keq(a, b) || #[trigger] klt(b, a) by { assert(lt(a, b) || eq(a, b) || lt(b, a)); }
+        assert forall|a: JsonValue, b: JsonValue, c: JsonValue| #[trigger] klt(a, b) && #[trigger] klt(b, c) implies klt(a, c) by { assert(lt(a, b) && lt(b, c)); assert(lt(a, c)); }
+        assert forall|a: JsonValue, b: JsonValue, c: JsonValue| #[trigger] keq(a, b) && #[trigger] klt(b, c) implies klt(a, c) by { assert(eq(a, b) && lt(b, c)); assert(lt(a, c)); }
+        assert forall|a: JsonValue, b: JsonValue, c: JsonValue| #[trigger] klt(a, b) && #[trigger] keq(b, c) implies klt(a, c) by { assert(lt(a, b) && eq(b, c)); assert(lt(a, c)); }
+        reveal(key_order_total);
+        assert(key_order_total());
+    }
+}
 // ---- the reference: stable insertion sort on a list of rows ----
 // does a row with key kx, already in the list, stay BEFORE a newcomer with key kc?  (ties: yes — arrival order)
 pub open spec fn stays_before(asc: bool, kx: JsonValue, kc: JsonValue) -> bool { if asc { !klt(kc, kx) } else { !klt(kx, kc) } }
